@@ -738,6 +738,9 @@ class AcctSim(object):
         # the ledger follows the trades the broker reports having executed (C01: the rebalancing path)
         got = {}
         for tr in r.trades:
+            if tr.quantity == 0 and ("c12" in self.oracles or "c03" in self.oracles):
+                self.violate("zero_sized_trade", "rebalance to {} produced a zero-sized trade of {}".format(targets, getattr(tr.contract, "symbol", tr.contract)), kind="zero")
+                return rec
             i = self.idx_of(tr.contract)
             if i is None:
                 self.violate("foreign_trade", "rebalance traded {} which is not in the world".format(tr.contract), kind="foreign")
@@ -876,6 +879,9 @@ class AcctSim(object):
                 L.interest += F(float(r2.profit_on_idle_cash))
                 self.probe("second_identical_rebalance")
                 for tr in r2.trades:
+                    if tr.quantity == 0:
+                        self.violate("zero_sized_trade", "the second identical rebalance produced a zero-sized trade of {}".format(getattr(tr.contract, "symbol", tr.contract)), kind="zero_again")
+                        return
                     i = self.idx_of(tr.contract)
                     L.apply_trade(i, tr.quantity, tr.acq_price)
                     p = plan.get(i)
